@@ -252,3 +252,56 @@ Fixpoint cells_disjointb (ids : list Z) : bool :=
   end.
 Definition index_okb (numEdges : list Z) (idx : index) : bool :=
   forallb (cell_okb numEdges) idx && cells_disjointb (cell_ids idx).
+
+(** * Loop/Polygon.ContainsCell and IntersectsCell (s2/loop.go, s2/polygon.go): the decision
+      structure over the shape's own index (one shape, id 0). The clipping test of
+      boundaryApproxIntersects (ClipToPaddedFace + edgeIntersectsRect with maxError) is the
+      parameter [approx_meets]. [None] stands for the nil dereference of findByShapeID(0). *)
+Section CellRelations.
+  Variable point : Type.
+  Variable crossing_sign : point -> point -> point -> point -> crossing.
+  Variable vertex_crossing : point -> point -> point -> point -> bool.
+  Variable cell_center : Z -> point.
+  Variable approx_meets : point * point -> Z -> bool.
+
+  (** boundaryApproxIntersects(it, target), the iterator being at index cell [id] with entry [cl] *)
+  Definition boundary_approx_intersects (s : qshape point) (cl : clipped) (id target : Z) : bool :=
+    if lenZ (cl_edges cl) =? 0 then false
+    else if id =? target then true
+    else existsb (fun e => approx_meets e target) (edges_of point s (cl_edges cl)).
+
+  (** iteratorContainsPoint(it, p) *)
+  Definition iterator_contains_point (s : qshape point) (cl : clipped) (center p : point) : bool :=
+    if lenZ (cl_edges cl) =? 0 then cl_containsCenter cl
+    else fold_left (fun inside (e : point * point) =>
+                      xorb inside (edge_or_vertex_crossing point crossing_sign vertex_crossing center p (fst e) (snd e)))
+                   (edges_of point s (cl_edges cl)) (cl_containsCenter cl).
+
+  Definition contains_cell (s : qshape point) (idx : index) (target : Z) : option bool :=
+    match locate_cellid (cell_ids idx) target with
+    | Indexed pos =>
+        let '(id, cell) := nth_cell idx pos in
+        match find_by_shape cell 0 with
+        | None => None
+        | Some cl =>
+            if boundary_approx_intersects s cl id target then Some false
+            else Some (iterator_contains_point s cl (cell_center id) (cell_center target))
+        end
+    | _ => Some false
+    end.
+
+  Definition intersects_cell (s : qshape point) (idx : index) (target : Z) : option bool :=
+    match locate_cellid (cell_ids idx) target with
+    | Disjoint => Some false
+    | Subdivided _ => Some true
+    | Indexed pos =>
+        let '(id, cell) := nth_cell idx pos in
+        if id =? target then Some true else
+        match find_by_shape cell 0 with
+        | None => None
+        | Some cl =>
+            if boundary_approx_intersects s cl id target then Some true
+            else Some (iterator_contains_point s cl (cell_center id) (cell_center target))
+        end
+    end.
+End CellRelations.
